@@ -32,7 +32,7 @@ Definition go_int_text (base : N) (mincol : nat) (pad comma : text) (commaint : 
   let '(out, neg, colon) :=
     match arg with
     | VInt z => (int_text base z, (z <? 0)%Z, colon)
-    | v => (prin1 v, true, false)          (* default: printed with Escape and Readably set *)
+    | v => (princ v, true, false)          (* default: not an integer, printed as by ~A (no sign, no commas) *)
     end in
   let out := if at_ && negb neg then "+" :: out else out in
   let out := if colon then go_group out comma commaint else out in
